@@ -38,23 +38,29 @@ TRUSTED = [
     "no label and is inserted by the acceptor where the code must already have released",
     "harness: harness/lib/procs.py (children, gates, trace translation, cache observation)",
 ]
-ASSUMPTIONS = ["one checksum in one cache root (no read-only caches: C11)", "task body deterministic and succeeding "
-               "for C10_once/C10_same_outputs; rerun=False", "submitters are processes using the debug worker"]
+ASSUMPTIONS = ["one checksum per model instance (a workflow's node jobs are separate instances), one cache root (no read-only caches: C11)", "task body deterministic and succeeding "
+               "for C10_once/C10_same_outputs; rerun=False", "submitters are processes (debug or cf worker); cf runs are not gated"]
 RULE = ("gated or free-running rounds of 2-4 fresh interpreters submitting the same task to one cache root (with / "
-        "without an existing result, fast / slow body, python / shell task, random / burst / round-robin gate "
-        "policies); distinct = distinct sequence of (process, label) in the recorded trace; non-trivial = at least "
+        "without an existing result or a stored failure, fast / slow body, python / shell / two-node workflow task, "
+        "debug worker (Job.run) or cf worker (Job.run_async, PydraFileLock, node jobs in pool processes), random / "
+        "burst / round-robin / scripted gate policies; the traces of a workflow's node jobs are checked per checksum); distinct = distinct sequence of (process, label) in the recorded trace; non-trivial = at least "
         "two processes recorded job.lock_acquired and the trace alternates between processes at least 3 times")
 
 EXTRA = """
-(* the trace, the body executions before the concurrent round, the submitters of the round *)
-Definition c10_case := (trace_case * nat * list nat)%type.
-Definition tie_accepts (c : c10_case) : bool := accepts (fst (fst c)).
-Definition tie_final (c : c10_case) : bool := final_matches (fst (fst c)).
+(* the trace, the body executions before the concurrent round, the submitters of the round, and for a workflow the
+   number of executions of its node bodies (the same for every node, else 0 or the maximum when above 1) *)
+Definition c10_case := (trace_case * nat * list nat * option nat)%type.
+Definition tie_accepts (c : c10_case) : bool := accepts (fst (fst (fst c))).
+Definition tie_final (c : c10_case) : bool := final_matches (fst (fst (fst c))).
+Definition node_accepts (c : trace_case) : bool := accepts c.
+Definition set_runs (g : gobs) (k : nat) : gobs :=
+  let '(a, b, c, d, e, f, r, i) := g in (a, b, c, d, e, f, k, i).
 Definition minus_runs (g : gobs) (k : nat) : gobs :=
   let '(a, b, c, d, e, f, r, i) := g in (a, b, c, d, e, f, r - k, i).
 Definition spec_ok (c : c10_case) : bool :=
-  let '(pre, bv, tr, go, pos, before, who) := c in
-  c10_specb bv (minus_runs go before) (filter (fun po => existsb (Nat.eqb (pobs_pid po)) who) pos).
+  let '(pre, bv, tr, go, pos, before, who, nodes) := c in
+  c10_specb bv (match nodes with Some k => set_runs go k | None => minus_runs go before end)
+            (filter (fun po => existsb (Nat.eqb (pobs_pid po)) who) pos).
 """
 
 
@@ -71,9 +77,29 @@ def errored_first(rng, k, script):
                 timeout=150)
 
 
+def wf_scenario(rng, k, worker):
+    """Two or three submitters of one WORKFLOW (two chained nodes, each node job takes its own lock); worker cf =
+    Job.run_async + PydraFileLock for the workflow, node jobs in pool processes (free-running: no gates there)."""
+    nproc = rng.choice([2, 2, 3])
+    gate = None if worker == "cf" else dict(policy=rng.choice(["random", "bursts", "roundrobin"]), seed=rng.randrange(10 ** 6))
+    return dict(name="c10-wf-%s-%d" % (worker, k), pre=rng.random() < 0.2,
+                task=dict(task="workflow", x=rng.randrange(1, 40), worker=worker, delay=rng.choice([0.0, 0.1])),
+                stages=[dict(children=[dict(subs=[{}]) for _ in range(nproc)], gate=gate)], timeout=240)
+
+
+def cf_python(rng, k):
+    return dict(name="c10-py-cf-%d" % k, pre=False, task=dict(task="python", x=rng.randrange(1, 40), worker="cf"),
+                stages=[dict(children=[dict(subs=[{}]) for _ in range(rng.choice([2, 3]))], gate=None)], timeout=240)
+
+
 def gen_scenarios(rng, n, corpus):
     out = [c["scenario"] for c in corpus if "scenario" in c]
     out.append(errored_first(rng, 0, True))
+    out.append(wf_scenario(rng, 0, "debug"))
+    out.append(wf_scenario(rng, 1, "cf") if rng.random() < 0.5 else cf_python(rng, 1))
+    if n > 20:
+        out += [wf_scenario(rng, 10 + j, "debug") for j in range(6)] + [wf_scenario(rng, 20 + j, "cf") for j in range(3)]
+        out += [cf_python(rng, 30 + j) for j in range(3)]
     k = 0
     while len(out) < n:
         if k % 9 == 5:
@@ -99,11 +125,12 @@ def alternations(ev):
 
 
 def run(ctx):
-    n = ctx.budget(6, 60)
+    n = ctx.budget(7, 60)
     scs = gen_scenarios(ctx.rng, n, ctx.corpus())
     with cf.ThreadPoolExecutor(max_workers=6) as ex:
         results = list(ex.map(procs.run_scenario, scs))
     cases, seen = [], set()
+    node_cases, node_of = [], []
     dist = {"processes": {}, "with_existing_result": 0, "gated": 0, "slow_body": 0, "shell": 0, "hangs": 0,
             "events": 0}
     nontrivial = 0
@@ -113,8 +140,18 @@ def run(ctx):
         before = res["runs_stage"][-2] if len(res["runs_stage"]) >= 2 else 0
         nlast = len(sc["stages"][-1]["children"])
         who = [c["idx"] for c in res["children"][-nlast:]]
-        cases.append("(%s, %d, %s)" % (procs.case_literal(sc, res, bv), before,
-                                       coqio.lst([coqio.nat(i) for i in who])))
+        nodes = "None"
+        if sc["task"]["task"] == "workflow":
+            x = sc["task"].get("x", 3)
+            cnts = [res["runs_by_x"].get(str(x), 0), res["runs_by_x"].get(str(2 * x + 1), 0)]
+            nodes = "(Some %d)" % (max(cnts) if min(cnts) >= 1 else 0)
+            dist["workflow"] = dist.get("workflow", 0) + 1
+        dist["cf_worker"] = dist.get("cf_worker", 0) + (sc["task"].get("worker") == "cf")
+        for key, nev in res["node_events"].items():
+            node_cases.append("(false, 1, %s, (false, false, false, 0, 0, 0, 0, 0), [])" % procs.coq_events(nev))
+            node_of.append((len(cases), key))
+        cases.append("(%s, %d, %s, %s)" % (procs.case_literal(sc, res, bv), before,
+                                           coqio.lst([coqio.nat(i) for i in who]), nodes))
         np_ = nlast
         dist["processes"][str(np_)] = dist["processes"].get(str(np_), 0) + 1
         dist["with_existing_result"] += bool(sc.get("pre"))
@@ -135,6 +172,15 @@ def run(ctx):
                                         note="a submitter hung or died", kind="spec"))
     chk = coqio.run_cases(ctx.scratch, "c10", IMPORTS, "c10_case", cases,
                           {"accepts": "tie_accepts", "final": "tie_final", "spec": "spec_ok"}, extra=EXTRA, shard=20)
+    if node_cases:
+        nchk = coqio.run_cases(ctx.scratch, "c10n", IMPORTS, "trace_case", node_cases, {"accepts": "node_accepts"},
+                               extra=EXTRA, shard=40)
+        for j in nchk["accepts"]:
+            i, key = node_of[j]
+            out.failures.append(Failure(case={"scenario": scs[i], "node_job": key}, observed=_obs(results[i]),
+                                        expected={"node job trace (model events)": node_cases[j][:3000]},
+                                        note="trace of a workflow's node job not accepted by the model", kind="tie"))
+        out.extra["node_job_traces_validated"] = len(node_cases) - len(nchk["accepts"])
     for i in chk["spec"]:
         out.failures.append(Failure(case={"scenario": scs[i]}, observed=_obs(results[i]),
                                     expected="body executions in the concurrent round = 1 (0 if a result was there) and "
@@ -164,7 +210,8 @@ def run(ctx):
 
 
 def _obs(res):
-    return {"body_executions": res["runs"], "body_executions_per_stage": res["runs_stage"], "cache": res["cache"],
+    return {"body_executions": res["runs"], "body_executions_per_stage": res["runs_stage"],
+            "executions_by_body_input": res.get("runs_by_x"), "cache": res["cache"],
             "hang": res["hang"],
             "children": [{"idx": c["idx"], "rc": c["rc"], "report": c["report"], "tail": c["tail"]} for c in res["children"]],
             "events": ["%d:%s" % e for e in res["events"]]}
@@ -173,7 +220,7 @@ def _obs(res):
 def _model_view(ctx, case, name):
     try:
         v = coqio.eval_terms(ctx.scratch, name, IMPORTS, [
-            "let '(pre, bv, tr, go, pos, before, who) := %s in (first_reject bv (init bv pre) tr 0, List.length tr, "
+            "let '(pre, bv, tr, go, pos, before, who, nodes) := %s in (first_reject bv (init bv pre) tr 0, List.length tr, "
             "match accept_run bv (init bv pre) tr with Some s => Some (observe_g s (map pobs_pid pos), map (fun po => observe_p s (pobs_pid po)) pos) | None => None end)" % case])
         return {"first_rejected_event_index, trace_length, model_final_observation": v[0]}
     except Exception as e:  # pragma: no cover
@@ -227,7 +274,7 @@ def thread_round(ctx):
                 tail = p.stdout.decode("utf-8", "replace")[-400:]
             except subprocess.TimeoutExpired:
                 outs, tail = None, "timeout"
-            runs = len(open(side).read().split())
+            runs = len(open(side).read().splitlines())
             good = ["returned", False, procs.expected_value(task)]
             ok = outs is not None and runs == 1 and all(o == good for o in outs)
             rounds.append({"threads": n, "body_executions": runs, "outcomes": outs})
@@ -252,7 +299,12 @@ def replay(ctx, payload):
     before = res["runs_stage"][-2] if len(res["runs_stage"]) >= 2 else 0
     nlast = len(sc["stages"][-1]["children"])
     who = [c["idx"] for c in res["children"][-nlast:]]
-    lit = "(%s, %d, %s)" % (procs.case_literal(sc, res, bv), before, coqio.lst([coqio.nat(i) for i in who]))
+    nodes = "None"
+    if sc["task"]["task"] == "workflow":
+        x = sc["task"].get("x", 3)
+        cnts = [res["runs_by_x"].get(str(x), 0), res["runs_by_x"].get(str(2 * x + 1), 0)]
+        nodes = "(Some %d)" % (max(cnts) if min(cnts) >= 1 else 0)
+    lit = "(%s, %d, %s, %s)" % (procs.case_literal(sc, res, bv), before, coqio.lst([coqio.nat(i) for i in who]), nodes)
     print("implementation:", json.dumps(_obs(res), indent=1, default=repr))
     vals = coqio.eval_terms(ctx.scratch, "replay", IMPORTS, ["tie_accepts %s" % lit, "tie_final %s" % lit, "spec_ok %s" % lit],
                             extra=EXTRA)
